@@ -1,6 +1,6 @@
 """C02 bounded stand-in: LRI/LRU against the reference cache of the property statement.
 
-Contract, evaluated after every step of every history (both classes, max_size 1..3, on_miss None / f):
+Contract, evaluated after every step of every history (both classes, max_size 1..3, on_miss None / f / f raising for one key):
   capacity                      len(c) <= max_size
   readers_agree                 len / in / iter / keys / values / items / dict() agree and do not raise
   contents_match_reference      dict(c) and every lookup == reference cache; removed_key_not_returned
@@ -26,8 +26,8 @@ from refmodels.refcache import RefCache, probe_order  # noqa: E402
 from boltons import cacheutils  # noqa: E402
 
 HDR = ('from boltons.cacheutils import LRI, LRU\ncalls = []\n'
-       'def om(k):\n    calls.append(k); return k * 2\n'
-       'def t(s):\n    try: exec(s, globals())\n    except KeyError: pass\n')
+       'def om(k):\n    calls.append(k)\n    if k == RAISE_FOR: raise ValueError(k)\n    return k * 2\n'
+       'def t(s):\n    try: exec(s, globals())\n    except (KeyError, ValueError): pass\n')
 
 # update()/|= argument kinds: name -> (positional factory or None, kwargs, source text, description)
 UPD = {
@@ -36,6 +36,10 @@ UPD = {
               'iterator of pairs with a repeated key'),
     'dict+kw': (lambda: {'b': 1}, {'a': 2}, "{'b': 1}, a=2", 'dict plus keyword arguments'),
     'kw': (None, {'a': 2}, 'a=2', 'keyword arguments only'),
+    'dict+kw same key': (lambda: {'a': 1, 'b': 2}, {'a': 3}, "{'a': 1, 'b': 2}, a=3",
+                         'dict plus keyword arguments repeating one of its keys'),
+    'pairs+kw same key': (lambda: [('b', 1), ('a', 1)], {'b': 3}, "[('b', 1), ('a', 1)], b=3",
+                          'pair list plus keyword arguments repeating one of its keys'),
     'big': (lambda: dict.fromkeys('abcd', 1), {}, "dict.fromkeys('abcd', 1)", 'dict larger than max_size'),
 }
 IOR = {'dict': (lambda: {'b': 2, 'c': 1}, "{'b': 2, 'c': 1}"), 'pairs': (lambda: [('a', 2)], "[('a', 2)]")}
@@ -136,11 +140,20 @@ class Ctx:
     def new(self):
         calls = []
 
+        bad = self.keys[0] if self.om == 'x' else None
+
         def on_miss(k):
             calls.append(k)
+            if k == bad:
+                raise ValueError(k)
+            return k * 2
+
+        def ref_on_miss(k):
+            if k == bad:
+                raise ValueError(k)
             return k * 2
         c = self.cls(max_size=self.ms, on_miss=on_miss if self.om else None)
-        m = RefCache(self.ms, self.cname == 'LRU', (lambda k: k * 2) if self.om else None)
+        m = RefCache(self.ms, self.cname == 'LRU', ref_on_miss if self.om else None)
         return c, m, calls
 
     def replay(self, hist):
@@ -150,12 +163,13 @@ class Ctx:
         return c, m, calls
 
     def witness(self, hist):
-        return dict(cls=self.cname, max_size=self.ms, on_miss='k*2' if self.om else None, history=[src(o) for o in hist])
+        om = {'x': 'k*2, raising ValueError for key %r' % self.keys[0], True: 'k*2'}.get(self.om)
+        return dict(cls=self.cname, max_size=self.ms, on_miss=om, history=[src(o) for o in hist])
 
     def snip(self, hist, tail):
         body = 'c = %s(max_size=%d%s)\n' % (self.cname, self.ms, ', on_miss=om' if self.om else '')
         body += ''.join('t(%r)\n' % src(o) for o in hist)
-        return HDR + body + tail + '\n'
+        return 'RAISE_FOR = %r\n' % (self.keys[0] if self.om == 'x' else None) + HDR + body + tail + '\n'
 
     def fail(self, clause, site, wclass, hist, detail, tail=None, snip_hist=None):
         self.H.fail(clause, site, wclass, self.witness(hist), detail,
@@ -369,7 +383,7 @@ def explore(cx, depth, deadline_frac):
     c0, m0, calls0 = cx.new()
     seen = {state_key(c0, m0, calls0)}
     frontier = [()]
-    part = '%s/%d/%s' % (cx.cname, cx.ms, 'f' if cx.om else '-')
+    part = '%s/%d/%s' % (cx.cname, cx.ms, {'x': 'x', True: 'f'}.get(cx.om, '-'))
     stats = dict(states=1, transitions=0, depth=0)
     for d in range(1, depth + 1):
         nxt = []
@@ -398,7 +412,7 @@ def explore(cx, depth, deadline_frac):
 def random_histories(H, n, length):
     rnd = random.Random(H.seed)
     for i in range(n):
-        cx = Ctx(H, rnd.choice(['LRI', 'LRU']), rnd.choice([1, 2, 3]), rnd.choice([False, True]))
+        cx = Ctx(H, rnd.choice(['LRI', 'LRU']), rnd.choice([1, 2, 3]), rnd.choice([False, True, 'x']))
         hist = ()
         for j in range(length):
             op = rnd.choice(cx.ops)
@@ -419,17 +433,17 @@ def run():
                      'operation kinds (x keys, x argument kinds) up to the depth bound, passive readers and == after every '
                      'step, eviction order and all lookups probed on a fresh replay for every new state; non-trivial = the '
                      'cache is non-empty or the history has >= 2 steps',
-                bounds=dict(quick='LRI+LRU x max_size 1..3 (keys = first max_size+1 of a,b,c,d; values 1,2) x on_miss in {None, k*2}; all '
+                bounds=dict(quick='LRI+LRU x max_size 1..3 (keys = first max_size+1 of a,b,c,d; values 1,2) x on_miss in {None, k*2, k*2 raising ValueError for the first key (max_size 1..2)}; all '
                                   'histories up to depth 6 (max_size 1), 4 (max_size 2), 3 (max_size 3) over 28..49 operation instances',
                             thorough='same configurations; depth 10 (max_size 1), 7 (max_size 2), 4 (max_size 3); '
                                      '+ 300 random histories of 24 steps from --seed'))
     depth = {1: 10, 2: 7, 3: 4} if H.thorough else {1: 6, 2: 4, 3: 3}
-    configs = [(cn, ms, om) for ms in (1, 2, 3) for cn in ('LRI', 'LRU') for om in (False, True)]
+    configs = [(cn, ms, om) for ms in (1, 2, 3) for cn in ('LRI', 'LRU') for om in (False, True, 'x') if not (om == 'x' and ms == 3)]
     summary = {}
     for i, (cn, ms, om) in enumerate(configs):
         cx = Ctx(H, cn, ms, om)
         st = explore(cx, depth[ms], 0.12 + 0.8 * (i + 1) / len(configs))
-        summary['%s/%d/%s' % (cn, ms, 'f' if om else '-')] = st
+        summary['%s/%d/%s' % (cn, ms, {'x': 'x', True: 'f'}.get(om, '-'))] = st
     H.bounds = dict(H.bounds, reached=summary)
     if H.thorough:
         random_histories(H, 300, 24)
